@@ -64,7 +64,7 @@ def run_one(prop: str, name: str, spec: dict) -> Tuple[str, str, str, str]:
 
 def battery(prop: str, jobs: int = 8, scope: str = "full") -> dict:
     """scope 'full': every variant and every seeded change; 'thorough': the hand-written variants of the property, every
-    seeded change that was written for it or breaks it, and every third one of the remaining seeded changes (as silent
+    seeded change that was written for it or breaks it, and every sixth one of the remaining seeded changes (as silent
     variants) -- the thorough tier of a check stays within a few minutes, `python sa/selftest.py` runs everything"""
     specs = load().get(prop, {})
     if scope == "thorough":
@@ -85,7 +85,7 @@ def battery(prop: str, jobs: int = 8, scope: str = "full") -> dict:
                 keep[name] = spec
             else:
                 others.append(name)
-        for name in sorted(others)[::3]:
+        for name in sorted(others)[::6]:
             keep[name] = specs[name]
         specs = keep
     os.environ.setdefault("A5_JOBS", "2")
